@@ -363,15 +363,15 @@ func init() {
 	})
 	c12ExtraJobs = func(tier string) []reg.Job {
 		if tier == "thorough" {
-			return []reg.Job{
+			return withPolicies(tier, []reg.Job{
 				{Part: "C12/closerace", Build: "instr", Args: map[string]string{"bound": "3"}, Shards: 16, BudgetS: 900, Label: "Close || ReadAt || third, db3"},
 				{Part: "C12/closerace", Build: "instr", Args: map[string]string{"bound": "3", "conc": "0"}, Shards: 16, BudgetS: 600, Label: "Close || sequential ReadAt || third, db3"},
 				{Part: "C12/closerace", Build: "instr", Args: map[string]string{"strategy": "por", "thirds": "Stat"}, Shards: 16, BudgetS: 600, Label: "Close || ReadAt || Stat, por", Optional: true},
 				{Part: "C12/closefail", Build: "instr", Args: map[string]string{"bound": "3"}, Shards: 8, BudgetS: 300, Label: "Close whose request cannot be written (transient failure), db3"},
-			}
+			}, func(reg.Job) bool { return true })
 		}
-		return []reg.Job{{Part: "C12/closerace", Build: "instr", Args: map[string]string{"bound": "3"}, Shards: 16, BudgetS: 100, Label: "Close || ReadAt || third, db3"},
-			{Part: "C12/closefail", Build: "instr", Args: map[string]string{"bound": "2"}, Shards: 4, BudgetS: 100, Label: "Close whose request cannot be written (transient failure), db2"}}
+		return withPolicies(tier, []reg.Job{{Part: "C12/closerace", Build: "instr", Args: map[string]string{"bound": "3"}, Shards: 16, BudgetS: 100, Label: "Close || ReadAt || third, db3"},
+			{Part: "C12/closefail", Build: "instr", Args: map[string]string{"bound": "2"}, Shards: 4, BudgetS: 100, Label: "Close whose request cannot be written (transient failure), db2"}}, func(reg.Job) bool { return true })
 	}
 	c12Prop.Rule += "; scheduled half: one File shared by three goroutines (Close || 3-chunk concurrent ReadAt || one of WriteAt, Stat, Truncate, a second Close, Read) against the permuting peer, all schedules with <= d deviations; " +
 		"oracle: each call returns its proper result or os.ErrClosed, exactly one CLOSE on the wire and nothing carrying the handle after it"
@@ -405,12 +405,12 @@ func init() {
 	})
 	c01ExtraJobs = func(tier string) []reg.Job {
 		if tier == "thorough" {
-			return []reg.Job{
+			return withPolicies(tier, []reg.Job{
 				{Part: "C01/reorder", Build: "instr", Args: map[string]string{"bound": "3", "big": "1"}, Shards: 16, BudgetS: 900, Label: "reply reordering, 3-4 chunks, db3"},
 				{Part: "C01/reorder", Build: "instr", Args: map[string]string{"strategy": "por"}, Shards: 16, BudgetS: 900, Label: "reply reordering, 3 chunks, por", Optional: true},
-			}
+			}, func(reg.Job) bool { return true })
 		}
-		return []reg.Job{{Part: "C01/reorder", Build: "instr", Args: map[string]string{"bound": "2"}, Shards: 16, BudgetS: 100, Label: "reply reordering, 3 chunks, db2"}}
+		return withPolicies(tier, []reg.Job{{Part: "C01/reorder", Build: "instr", Args: map[string]string{"bound": "2"}, Shards: 16, BudgetS: 100, Label: "reply reordering, 3 chunks, db2"}}, func(reg.Job) bool { return true })
 	}
 	c01Prop.Rule += "; scheduled half: ReadAt/Read/WriteTo/WriteAt/Write/ReadFrom/ReadFromWithConcurrency of 3-4 chunks (P=2, K in {2,3}) against the permuting reference peer, every reply order and every schedule with <= d deviations, same byte-slice oracle"
 }
@@ -591,7 +591,7 @@ func init() {
 		if tier == "thorough" {
 			b, budget = "3", 600
 		}
-		return append(js, reg.Job{Part: "C12/feeder", Build: "instr", Args: map[string]string{"bound": b}, Shards: 16, BudgetS: budget,
-			Label: "failed concurrent upload from a slow source, then Close, db" + b})
+		return append(js, withPolicies(tier, []reg.Job{{Part: "C12/feeder", Build: "instr", Args: map[string]string{"bound": b}, Shards: 16, BudgetS: budget,
+			Label: "failed concurrent upload from a slow source, then Close, db" + b}}, func(reg.Job) bool { return true })...)
 	}
 }
